@@ -32,7 +32,7 @@ FIXED = [('short_int', 16, True), ('short_uint', 16, False),
 
 def shards(tier, seed):
     out = [{'name': 'edges', 'what': 'edges',
-            'n_random': 4000 if tier == 'quick' else 200000},
+            'n_random': 4000 if tier == 'quick' else 1000000},
            {'name': 'toggle', 'what': 'toggle',
             'seqs': 10 if tier == 'quick' else 300}]
     n = 14
